@@ -15,6 +15,13 @@ Tie to the current source, every run:
       there are counted in chk.extra as an observation, not an obligation;
   (b) the same outputs vs the SPEC oracle (exact interval intersection in Rat,
       written independently of the model): hit booleans, entry/exit/ip when hit;
+  (a') deterministic NON-DYADIC direction lattice: directions {0,+-1,+-3,+-5,+-7}^3\\{0} x integer origins
+      in [-4,4]^3 (thorough [-5,5]^3, more boxes, plus a seeded translation) x cube / slab / flat /
+      single-point boxes, so that edge/corner grazing (tFrontMax == tBackMin exactly, the same
+      rational from two different axes) occurs tens of thousands of times: hit/miss of the real code
+      vs the exact oracle (must be equal: correctly rounded quotients of small integers preserve
+      equality and order), and every specified output vs the MODEL EXECUTED AT Float/Float32 in the
+      same operation order, BIT FOR BIT (catches d*(1/dir) for d/dir and similar rewrites);
   (c) float guard sweep (residue, measured): direction components in
       {0, +-1, +-denorm_min, +-1e-30, +-1e30, +-max/2}, origins below/on/inside/on/above
       each slab; blocks: FIRST the deterministic ones (fixed ordinary box, half-infinite box with a
@@ -188,6 +195,114 @@ def run_lattice(chk, binary, pairs, off, name):
     return not allbad and not bad["model_vs_spec"]
 
 
+ND_QUICK_BOXES = "0,0,0,1,1,1;0,0,-1,2,1,1;0,0,0,0,1,2;1,1,1,1,1,1"          # cube, slab, flat (x), single point
+ND_THOROUGH_BOXES = ND_QUICK_BOXES + ";-1,-1,-1,1,1,1;0,0,0,0,0,2;-2,0,1,1,3,1;1,0,0,0,1,1"  # + cube, segment, flat (z), inverted
+
+
+def nd_first_diff(binary, args, blk, ft):
+    rc, a = lib.sh([binary, "ndlines"] + args + [str(blk), ft], timeout=600)
+    rc2, b = lib.sh([DRV, "ndlines"] + args + [str(blk), ft], timeout=600)
+    for x, y in zip(a.strip().split("\n"), b.strip().split("\n")):
+        head, impl = x.split(" | I ")
+        parts = y.split(" | ")
+        model, spec = parts[1][2:].strip(), parts[2][2:].strip()
+        I, S = parse_fields(impl), parse_fields(spec)
+        spec_bad = []
+        if I["fe"] != S["fe"]: spec_bad.append("findEntryAndExitPoints:result")
+        if I["is"] != S["is"]: spec_bad.append("intersects:result")
+        if I["isb"] != I["is"]: spec_bad.append("intersects(box,ray):differs-from-3-arg-form")
+        if spec_bad or impl.strip() != model:
+            v = head.split("in=")[1].split()
+            return {"block": blk, "case_index": int(head.split(" ")[0]), "float_type": ftype_name(ft),
+                    "box_min": v[0:3], "box_max": v[3:6], "pos": v[6:9], "dir": v[9:12],
+                    "implementation(points as double bit patterns)": impl.strip(),
+                    "model_at_%s(same operation order)" % ftype_name(ft): model, "exact_oracle": spec,
+                    "differs_from_exact_oracle": spec_bad, "differs_from_float_model": impl.strip() != model,
+                    "replay_cmd": "%s case %s %s" % (os.path.relpath(binary, lib.VERIF), ft, " ".join(v)),
+                    "oracle_cmd": "lean/.lake/build/bin/drv_raybox case %s %s" % (ftype_name(ft), " ".join(v))}
+    return None
+
+
+def ftype_name(ft):
+    return "float" if ft == "f" else "double"
+
+
+def run_nd(chk, binary, boxes, R, off, name):
+    """Non-dyadic direction lattice: directions {0,+-1,+-3,+-5,+-7}^3 \\ 0, integer boxes and origins in [-R,R]^3."""
+    args = [boxes, str(R), str(off[0]), str(off[1]), str(off[2])]
+    rc, a = lib.sh([binary, "nd"] + args, timeout=1800)
+    rc2, b = lib.sh([DRV, "nd"] + args, timeout=3600)
+    impl = [l.split() for l in a.strip().split("\n")] if rc == 0 else []
+    mod = [l.split() for l in b.strip().split("\n")] if rc2 == 0 else []
+    nblk = len(boxes.split(";")) * (2 * R + 1)
+    okshape = len(impl) == nblk and len(mod) == nblk
+    bad = {"model_d": [], "model_f": [], "oracle_d": [], "oracle_f": []}
+    nfe = nis = ngr = 0
+    if okshape:
+        for i, (x, y) in enumerate(zip(impl, mod)):
+            # x: blk tieD tieF boolD boolF nFe nIs ; y: blk tie64 tie32 boolsOracle nFe nIs nGraze
+            if x[1] != y[1]: bad["model_d"].append(i)
+            if x[2] != y[2]: bad["model_f"].append(i)
+            if x[3] != y[3]: bad["oracle_d"].append(i)
+            if x[4] != y[3]: bad["oracle_f"].append(i)
+            nfe += int(y[4]); nis += int(y[5]); ngr += int(y[6])
+    ncases = len(boxes.split(";")) * (2 * R + 1) ** 3 * 728
+    chk.oblige("corr:%s:exact-oracle=impl(double):hit/miss" % name, "correspondence", okshape and not bad["oracle_d"])
+    chk.oblige("corr:%s:exact-oracle=impl(float):hit/miss" % name, "correspondence", okshape and not bad["oracle_f"])
+    chk.oblige("corr:%s:model@Float=impl(double):bit-for-bit" % name, "correspondence", okshape and not bad["model_d"])
+    chk.oblige("corr:%s:model@Float32=impl(float):bit-for-bit" % name, "correspondence", okshape and not bad["model_f"])
+    chk.count(2 * ncases, nfe + nis)
+    chk.extra.setdefault("nondyadic_lattice", {})[name] = {
+        "boxes": boxes, "origin_radius": R, "offset": off[:3], "cases": ncases, "line_hits": nfe, "ray_hits": nis,
+        "grazing_hits(single-parameter interval: edge/corner touch, flat boxes)": ngr,
+        "mismatching_blocks": {k: len(v) for k, v in bad.items()}}
+    if not okshape:
+        chk.fail("corr:%s" % name, "nd:run", "non-dyadic lattice run failed", {"harness_rc": rc, "driver_rc": rc2,
+                 "harness_tail": a[-400:], "driver_tail": b[-400:]}, False)
+        return
+    allbad = sorted(set(sum(bad.values(), [])))
+    if allbad:
+        # prefer a block where the RESULT differs from the exact oracle
+        orc = sorted(set(bad["oracle_d"] + bad["oracle_f"]))
+        blk = orc[0] if orc else allbad[0]
+        ft = "d" if (blk in bad["oracle_d"] or (not orc and blk in bad["model_d"])) else "f"
+        rep = nd_first_diff(binary, args, blk, ft)
+        if rep and orc and not rep["differs_from_exact_oracle"]:
+            # first differing case of the block is a bits-only one: look for the first result flip
+            rc3, a3 = lib.sh([binary, "ndlines"] + args + [str(blk), ft], timeout=600)
+            rc4, b3 = lib.sh([DRV, "ndlines"] + args + [str(blk), ft], timeout=600)
+            for x, y in zip(a3.strip().split("\n"), b3.strip().split("\n")):
+                I, S = parse_fields(x.split(" | I ")[1]), parse_fields(y.split(" | ")[2][2:])
+                if I["fe"] != S["fe"] or I["is"] != S["is"]:
+                    v = x.split(" | I ")[0].split("in=")[1].split()
+                    rep.update({"case_index": int(x.split(" ")[0]), "box_min": v[0:3], "box_max": v[3:6], "pos": v[6:9], "dir": v[9:12],
+                                "implementation(points as double bit patterns)": x.split(" | I ")[1].strip(),
+                                "model_at_%s(same operation order)" % ftype_name(ft): y.split(" | ")[1][2:].strip(),
+                                "exact_oracle": y.split(" | ")[2][2:].strip(),
+                                "differs_from_exact_oracle": [n for n, k in (("findEntryAndExitPoints:result", "fe"), ("intersects:result", "is")) if I[k] != S[k]],
+                                "differs_from_float_model": True,
+                                "replay_cmd": "%s case %s %s" % (os.path.relpath(binary, lib.VERIF), ft, " ".join(v)),
+                                "oracle_cmd": "lean/.lake/build/bin/drv_raybox case %s %s" % (ftype_name(ft), " ".join(v))})
+                    break
+        if rep:
+            rep["mismatching_blocks"] = {k: len(v) for k, v in bad.items()}
+            where = "box [%s]..[%s], pos (%s), dir (%s)" % (",".join(rep["box_min"]), ",".join(rep["box_max"]),
+                                                             ",".join(rep["pos"]), ",".join(rep["dir"]))
+            if rep["differs_from_exact_oracle"]:
+                key = "nd:%s:%s" % (rep["differs_from_exact_oracle"][0], where.replace(" ", ""))
+                what = "real code (%s) differs from the exact answer with a non-dyadic direction: %s at %s" % (
+                    rep["float_type"], ", ".join(rep["differs_from_exact_oracle"]), where)
+            else:
+                key = "nd:float-model-bits:%s" % where.replace(" ", "")
+                what = ("real code (%s) is not bit-identical to the proven model executed in floating point with the same "
+                        "operation order (a rounding-relevant rewrite) at %s" % (rep["float_type"], where))
+            chk.fail("corr:%s" % name, key, what, rep, True)
+        else:
+            chk.fail("corr:%s" % name, "nd:hash-only", "block hashes differ but no differing case was isolated",
+                     {"blocks": allbad[:8]}, False)
+
+
+
 def parse_num(s):
     """driver number syntax -> python float (exact for doubles)"""
     if "*2^" in s:
@@ -272,7 +387,8 @@ def run(chk):
                        "(guard sweep), not proved", "Spec/RayBoxSpec.lean states closed-box membership and the guards correctly"]
     chk.rule = ("exhaustive lattice: boxes = (per-axis (min,max) pairs incl. flat and inverted)^3, origins [-2,2]^3, directions "
                 "[-2,2]^3 minus 0, translated/scaled by a VERIF_SEED-chosen integer offset and power of two; non-trivial = results "
-                "that are true.  Guard sweep: 11^3-1 extreme directions x <=125 origins x boxes; non-trivial = robust exact answers")
+                "that are true.  Non-dyadic lattice: directions {0,+-1,+-3,+-5,+-7}^3 minus 0, integer origins/boxes, deterministic; "
+                "model executed at Float/Float32 and compared bit for bit.  Guard sweep: 11^3-1 extreme directions x <=125 origins x boxes; non-trivial = robust exact answers")
     okd, out = build_driver()
     chk.oblige("build:drv_raybox", "build", okd, None if okd else out[-800:])
     ok, binary, o = lib.cxx_build("raybox_corr", ["corr/raybox_corr.cpp"])
@@ -320,6 +436,12 @@ def run(chk):
     if chk.thorough:
         off2 = [chk.rng.randint(-3, 3), chk.rng.randint(-3, 3), chk.rng.randint(-3, 3), chk.rng.randint(-1, 2)]
         run_lattice(chk, binary, THOROUGH_PAIRS, off2, "lattice-thorough")
+    # deterministic non-dyadic direction lattice (grazing edges/corners in quantity), model executed in floating point
+    run_nd(chk, binary, ND_QUICK_BOXES, 4, [0, 0, 0], "nondyadic-quick")
+    if chk.thorough:
+        run_nd(chk, binary, ND_THOROUGH_BOXES, 5, [0, 0, 0], "nondyadic-thorough")
+        run_nd(chk, binary, ND_QUICK_BOXES, 4, [chk.rng.randint(-9, 9), chk.rng.randint(-9, 9), chk.rng.randint(-9, 9)],
+               "nondyadic-seeded-offset")
     chk.exhaustive = True
     run_sweep(chk, binary)
     # samples: grazing an edge, flat box, axis-parallel ray, empty box
